@@ -401,7 +401,7 @@ def run_shard(ctx):
     m = Mon(ctx, T)
     rng = ctx.rng
     thorough = ctx.tier == "thorough"
-    n = 300 if not thorough else 4000
+    n = 300 if not thorough else 16000
     specs = []
     for req in (False, True):
         for L in [None] + list(range(1, 41)):
